@@ -270,6 +270,9 @@ def configs_for(tier):
     cfgs.append(dict(base, n=2, kernel="semi", wiring="run", outl=True, thr=0.5, np=3))
     # three particles with unequal first-step weights (bootstrap + outliers): resampling really chooses among particles
     cfgs.append(dict(base, n=2, kernel="boot", wiring="run", outl=True, thr=1.0, np=3))
+    # ... and a threshold between the relative ESS of the whole swarm and that of its free particles (adaptive decision)
+    cfgs.append(dict(base, n=2, kernel="boot", wiring="run", outl=True, thr=0.75, np=3))
+    cfgs.append(dict(base, n=2, kernel="boot", wiring="lib", outl=True, thr=0.9, np=3))
     cfgs.append(dict(base, n=2, kernel="boot", wiring="lib", outl=True, thr=0.7, np=3))
     if tier == "thorough":
         for k in ("boot", "semi", "full"):
